@@ -21,7 +21,7 @@ func init() {
 			"(kinds-exhaustive) Recv, Close and MergeStreamReaders handle all reader kinds; " +
 			"(convert-skip) a converting reader skips only ErrNoValue items and returns every other error/EOF; " +
 			"(merge-end) a merged reader ends only when no source is left, drops a source only when it is closed, and Close closes every source.",
-		decided:    []string{"channel-ownership", "send-selects-closed", "forwarder-protocol", "copy-cell", "kinds-exhaustive", "convert-skip", "merge-end"},
+		decided:    []string{"channel-ownership", "send-selects-closed", "forwarder-protocol", "copy-cell", "kinds-exhaustive", "convert-skip", "merge-end", "array-alias"},
 		notDecided: []string{"ordering / exactly-once / deadlock freedom under all interleavings (model-checking question)", "behaviour of user convert functions", "fairness of select"},
 		run:        runC08,
 	})
@@ -35,7 +35,7 @@ func init() {
 			"(last-close) closing the last copy closes the source, each child counted once (C08.copy-cell); " +
 			"(close-exhaustive) StreamReader.Close handles all kinds, a merged reader closes every source, a converting reader delegates; " +
 			"(copies-all-used) copyItem hands out every copy it creates.",
-		decided:    []string{"surplus-closed", "selected-never-skipped", "drain-closes", "forwarders", "last-close", "close-exhaustive", "copies-all-used"},
+		decided:    []string{"surplus-closed", "selected-never-skipped", "drain-closes", "forwarders", "last-close", "close-exhaustive", "copies-all-used", "copies-match-consumers", "no-dropped-copy"},
 		notDecided: []string{"absence of blocked goroutines as a run-time fact", "copy-count arithmetic beyond the linear forms of resolveCompletedTasks (no solver)", "streams dropped on framework error paths (outside the property's premise)", "user nodes that do not close their inputs"},
 		run:        runC19,
 	})
